@@ -65,8 +65,7 @@ void harness_name_parse(void)
 		VP_ASSERT(idx > start && idx <= length, "C33: index not advanced within (start, length]");
 		VP_WITNESS("name accepted");
 	} else VP_WITNESS("name rejected");
-	return;
-#endif
+#else
 	rr = dnsref_name(packet, length, start, refout, out_len, &rnext, &rtext, NULL);
 	if (rr == DNSREF_RESERVED) {
 		/* label type 01/10: not compared here (see obligation name_parse_reserved) */
@@ -97,4 +96,5 @@ void harness_name_parse(void)
 	if (rnext != start + rtext + 2 && rtext > 0) VP_WITNESS("well-formed compressed name decoded");
 	if (rtext > 3) VP_WITNESS("well-formed multi-byte name decoded");
 	if (rtext == 0) VP_WITNESS("root name decoded");
+#endif
 }
